@@ -2,6 +2,7 @@ package main
 
 import (
 	"fmt"
+	"go/token"
 	"go/types"
 	"strings"
 
@@ -33,6 +34,7 @@ func c09(c *Ctx) {
 	// (a leaked lock turns the NEXT read of any value into a hang, which is neither an error nor the original content)
 	c.rulePairing("C09.5/read-path-lock-pairing", []string{"embedded/store"}, storeReturnsHolding)
 	c09EntryCountBounded(c, "C09.6/entry-count-bounded")
+	c09ValueBuffersBounded(c, "C09.7/value-buffers-bounded")
 	// ---- C09.1 must-validate ------------------------------------------------------------------------------------
 	r := "C09.1/must-validate"
 	bav := callTo("embedded/store.(*txDataReader).buildAndValidateHtree")
@@ -258,5 +260,130 @@ func c09EntryCountBounded(c *Ctx, r string) {
 		c.fail(r, fnName(f)+":bound", c.pos(w[len(w)-1].Pos()), "a header is handed out without its entry count having been compared with maxEntries: "+c.witnessStr(w))
 	} else {
 		c.ok(r, fnName(f)+":bound", c.pos(f.Pos()), "every path to a successful return passes the comparison with maxEntries")
+	}
+}
+
+// c09ValueBuffersBounded: the length of a value is stored beside its hash but is covered by no hash, so a damaged length
+// reaches the readers unnoticed; the value is checked against its hash only after a buffer of that length was filled.
+// Wherever the store sizes a buffer with a stored value length (TxEntry.vLen, valueRef.valLen, or a parameter that
+// callers fill with one), the length has been compared with the store's maximum value length first.
+func c09ValueBuffersBounded(c *Ctx, r string) {
+	c.buildCallIndex()
+	isStoredLen := func(v ssa.Value) bool {
+		return dependsOn(v, func(x ssa.Value) bool {
+			u, ok := x.(*ssa.UnOp)
+			if !ok || u.Op != token.MUL {
+				return false
+			}
+			fl, _ := fieldOf(u.X)
+			return fl == "TxEntry.vLen" || fl == "valueRef.valLen"
+		})
+	}
+	// guardedAt: a branch on (value ? maxValueLen) dominates `at`
+	guardedAt := func(fn *ssa.Function, v ssa.Value, at *ssa.BasicBlock) bool {
+		dv := desc(v)
+		for _, b := range fn.Blocks {
+			if len(b.Instrs) == 0 {
+				continue
+			}
+			ifi, ok := b.Instrs[len(b.Instrs)-1].(*ssa.If)
+			if !ok {
+				continue
+			}
+			for _, leaf := range boolLeaves(ifi.Cond) {
+				d := desc(leaf)
+				if strings.Contains(d, "maxValueLen") && strings.Contains(d, strings.TrimPrefix(dv, "convert:")) && (edgeDominates(b, 0, at) || edgeDominates(b, 1, at)) {
+					return true
+				}
+			}
+		}
+		return false
+	}
+	var guarded func(fn *ssa.Function, v ssa.Value, at ssa.Instruction, depth int) bool
+	guarded = func(fn *ssa.Function, v ssa.Value, at ssa.Instruction, depth int) bool {
+		// look through conversions
+		core := v
+		for {
+			if cv, ok := core.(*ssa.Convert); ok {
+				core = cv.X
+				continue
+			}
+			break
+		}
+		if guardedAt(fn, core, at.Block()) || guardedAt(fn, v, at.Block()) {
+			return true
+		}
+		p, ok := core.(*ssa.Parameter)
+		if !ok || depth > 2 {
+			return false
+		}
+		idx := -1
+		for i, fp := range fn.Params {
+			if fp == p {
+				idx = i
+			}
+		}
+		sitesOf := c.callIndex[fn]
+		if idx < 0 || len(sitesOf) == 0 {
+			return false
+		}
+		for _, cs := range sitesOf {
+			cc := callOf(cs)
+			if cc == nil || idx >= len(cc.Args) || !guarded(cs.Parent(), cc.Args[idx], cs, depth+1) {
+				return false
+			}
+		}
+		return true
+	}
+	var fromStoredLen func(fn *ssa.Function, v ssa.Value, depth int) bool
+	fromStoredLen = func(fn *ssa.Function, v ssa.Value, depth int) bool {
+		if isStoredLen(v) {
+			return true
+		}
+		core := v
+		for {
+			if cv, ok := core.(*ssa.Convert); ok {
+				core = cv.X
+				continue
+			}
+			break
+		}
+		p, ok := core.(*ssa.Parameter)
+		if !ok || depth > 2 {
+			return false
+		}
+		idx := -1
+		for i, fp := range fn.Params {
+			if fp == p {
+				idx = i
+			}
+		}
+		for _, cs := range c.callIndex[fn] {
+			cc := callOf(cs)
+			if cc != nil && idx >= 0 && idx < len(cc.Args) && fromStoredLen(cs.Parent(), cc.Args[idx], depth+1) {
+				return true
+			}
+		}
+		return false
+	}
+	n := 0
+	for _, fn := range c.allFns {
+		if !fnInPkgs(fn, []string{"embedded/store"}) || len(fn.Blocks) == 0 {
+			continue
+		}
+		per := 0
+		allInstrs(fn, false, func(in ssa.Instruction) {
+			mk, ok := in.(*ssa.MakeSlice)
+			if !ok || !fromStoredLen(fn, mk.Len, 0) {
+				return
+			}
+			n++
+			per++
+			c.check(guarded(fn, mk.Len, in, 0), r, fmt.Sprintf("%s:make#%d", fnName(fn), per), c.pos(in.Pos()), "the stored length was compared with maxValueLen before it sizes the buffer",
+				"a buffer is sized with a stored value length ("+desc(mk.Len)+") that nothing bounded: the length is covered by no hash, a damaged one allocates up to 4 GiB before the value can be checked")
+		})
+	}
+	if n < 3 {
+		c.undecided(r, "floor", fmt.Sprintf("%d buffers sized by a stored value length found in embedded/store (4 when the rule was armed)", n))
 	}
 }
